@@ -133,7 +133,7 @@ func instrumentDir(dir string) {
 			continue
 		}
 		addImport(f)
-		dropUnusedImports(f, "sync", "time", "runtime", "sync/atomic", "context")
+		dropUnusedImports(f, "sync", "time", "runtime", "sync/atomic", "context", "sort")
 		var buf bytes.Buffer
 		var src bytes.Buffer
 		if err := format.Node(&src, fset, f); err != nil {
@@ -382,6 +382,14 @@ func post(n ast.Node) ast.Node {
 					return sel(name)
 				}
 				die(s.Pos(), "sync/atomic.%s", name)
+			case "sort":
+				// the comparisons of a sort become preemption points: two goroutines sorting the same
+				// slice in place only go wrong if they interleave
+				switch name {
+				case "Slice", "SliceStable", "Strings", "Ints", "Float64s", "Sort", "Stable":
+					counts["sort."+name]++
+					return sel("Sort" + name)
+				}
 			case "runtime":
 				if name == "Gosched" {
 					return sel("Yield")
